@@ -136,8 +136,6 @@ def spec_expand(sk, tree, resolve):
         v = tree.get(name)
         if isinstance(v, dict) and v:
             tree[name] = spec_expand(sub, v, resolve)
-        elif v and (sub["includes"] or sub["subs"]):
-            raise TypeError("not a map")
     return tree
 
 
@@ -184,7 +182,7 @@ def stream_b(ctx, res, n):
         try:
             got = ("ok", cfg._process_includes(schema, copy.deepcopy(doc), partial(ConfigFormat.get, fmt)))
         except AttributeError:
-            got = ("not-a-map", None)
+            got = ("attribute-error", None)
         except (ValueError, OSError) as e:
             got = ("unresolved", None)
         # (2) oracle: load == load_tree(expanded)
